@@ -204,8 +204,11 @@ def snapshot(g, prefix="snap", deep=True):
                 if s is not None and s.central_atom != k:
                     raise Violation(f"{P}/incoherent/atom-change-key",
                                     f"{k}: {s!r}")
-            if norm:
-                snap["atom_changes"][k] = norm
+            if not norm:
+                # the public table lists an atom without any stereo change
+                raise Violation(f"{P}/incoherent/empty-atom-change-entry",
+                                f"{k}: {ch}")
+            snap["atom_changes"][k] = norm
         for k, ch in b_ch.items():
             norm = {_plain(r): desc_of(s) for r, s in ch.items()
                     if s is not None}
@@ -213,8 +216,10 @@ def snapshot(g, prefix="snap", deep=True):
                 if s is not None and frozenset(s.bond) != k:
                     raise Violation(f"{P}/incoherent/bond-change-key",
                                     f"{set(k)}: {s!r}")
-            if norm:
-                snap["bond_changes"][tuple(sorted(k))] = norm
+            if not norm:
+                raise Violation(f"{P}/incoherent/empty-bond-change-entry",
+                                f"{set(k)}: {ch}")
+            snap["bond_changes"][tuple(sorted(k))] = norm
         if deep:
             for a in atoms:
                 with guard(f"{P}/views/get_atom_stereo_change"):
